@@ -1,6 +1,6 @@
 """E10 - Python-semantics hygiene on the functions a property's behaviour passes through.
 
-Five exact lints, each of which names a construct whose behaviour differs between the first and a later use - the kind
+Eight exact lints, each of which names a construct whose behaviour differs between the first and a later use - the kind
 of fault that a test which exercises a function once cannot see:
 
   H1  a mutable default argument (or a function attribute / module-level container bound once) that the function
@@ -12,6 +12,11 @@ of fault that a test which exercises a function once cannot see:
       compiled pattern's methods): its integer value silently limits the number of substitutions;
   H5  a comprehension clause whose iterable reads a name that only a later clause binds (clauses swapped): the name is
       resolved outside the comprehension - to a leaked loop variable, i.e. to the last element only;
+  H6  an element of a list / tuple / set display written as several adjacent string literals (a missing comma glues two
+      table entries into one) - checked on the raw source of the modules the scoped functions live in;
+  H7  two members of one Enum class bound to the same constant (the second becomes an alias of the first);
+  H8  a click option whose kind (flag / multiple / plain) disagrees with the annotation of the parameter it fills - hidden
+      aliases included;
   H3  a lambda / nested function created in a loop that reads the loop variable as a free variable and is STORED
       (appended, assigned to a container or attribute, returned, yielded) instead of being called in the same iteration:
       every stored closure sees the last value of the variable.
@@ -366,6 +371,92 @@ def clause_order(fn: ast.AST) -> list[tuple[ast.AST, str, str]]:
     return out
 
 
+# ------------------------------------------------------------------------------------------------------------ H6
+def implicit_concatenation(src: str, tree: ast.AST) -> list[tuple[ast.AST, str, str]]:
+    """An element of a list / tuple / set display (two or more elements) that consists of SEVERAL string literals: the
+    comma between two entries of a table is missing and Python glued them into one string."""
+    import io
+    import tokenize
+    out = []
+    for n in ast.walk(tree):
+        if isinstance(n, (ast.List, ast.Tuple, ast.Set)) and len(n.elts) >= 2:
+            for e in n.elts:
+                if isinstance(e, ast.Constant) and isinstance(e.value, str):
+                    seg = ast.get_source_segment(src, e)
+                    if seg is None:
+                        continue
+                    try:
+                        toks = [t for t in tokenize.generate_tokens(io.StringIO("(" + seg + ")").readline) if t.type == tokenize.STRING]
+                    except (tokenize.TokenError, IndentationError, SyntaxError):
+                        continue
+                    if len(toks) >= 2:
+                        out.append((e, "", f"the element {e.value!r} of the {type(n).__name__.lower()} at line {n.lineno} is written as {len(toks)} adjacent"
+                                           f" string literals ({', '.join(t.string for t in toks[:3])}): a comma is missing between two entries"))
+    return out
+
+
+# ------------------------------------------------------------------------------------------------------------ H7
+def enum_aliases(tree: ast.AST) -> list[tuple[ast.AST, str, str]]:
+    """Two members of one Enum class bound to the same constant: the second is an ALIAS of the first (same object, same
+    .name and .value), so the enum has one kind fewer than it declares."""
+    out = []
+    for c in ast.walk(tree):
+        if not (isinstance(c, ast.ClassDef) and any(ast.unparse(b).split(".")[-1] in ("Enum", "IntEnum", "StrEnum", "Flag", "IntFlag") for b in c.bases)):
+            continue
+        seen: dict = {}
+        for st in c.body:
+            if isinstance(st, ast.Assign) and len(st.targets) == 1 and isinstance(st.targets[0], ast.Name) and isinstance(st.value, ast.Constant):
+                key = (type(st.value.value).__name__, st.value.value)
+                if key in seen:
+                    out.append((st, st.targets[0].id, f"{c.name}.{st.targets[0].id} = {st.value.value!r} has the value of {c.name}.{seen[key]}: it is an alias,"
+                                                      f" `{c.name}.{st.targets[0].id}.name` is '{seen[key]}'"))
+                else:
+                    seen[key] = st.targets[0].id
+    return out
+
+
+# ------------------------------------------------------------------------------------------------------------ H8
+def click_declarations(fn: ast.FunctionDef) -> list[tuple[ast.AST, str, str]]:
+    """A click option and the annotated parameter it fills must agree in kind: a `bool` parameter needs a flag option
+    (is_flag / flag_value / type=bool), a Sequence / Collection / tuple / list parameter needs multiple=True or nargs=-1,
+    anything else needs neither.  Every option that shares a destination (hidden aliases) must agree as well."""
+    out = []
+    ann = {a.arg: ast.unparse(a.annotation) for a in fn.args.args + fn.args.kwonlyargs if a.annotation is not None}
+    for d in fn.decorator_list:
+        if not (isinstance(d, ast.Call) and isinstance(d.func, ast.Attribute) and d.func.attr in ("option", "argument")):
+            continue
+        names = [a.value for a in d.args if isinstance(a, ast.Constant) and isinstance(a.value, str)]
+        if not names:
+            continue
+        dest = next((x for x in names if not x.startswith("-")), None)
+        if dest is None:
+            longs = [x for x in names if x.startswith("--")]
+            dest = (max(longs, key=len) if longs else names[0]).lstrip("-").replace("-", "_")
+        kws = {k.arg: k.value for k in d.keywords if k.arg}
+        is_flag = ("is_flag" in kws and ast.unparse(kws["is_flag"]) == "True") or "flag_value" in kws or \
+            ("type" in kws and ast.unparse(kws["type"]) in ("bool", "click.BOOL")) or "count" in kws
+        many = ("multiple" in kws and ast.unparse(kws["multiple"]) == "True") or ("nargs" in kws and ast.unparse(kws["nargs"]) == "-1")
+        t = ann.get(dest)
+        if t is None:
+            continue
+        core = t
+        while core.startswith("Optional[") and core.endswith("]"):
+            core = core[len("Optional["):-1]
+        want_flag = core == "bool"
+        want_many = core.split("[")[0].split(".")[-1] in ("Sequence", "Collection", "Iterable", "list", "List", "tuple", "Tuple", "set", "Set", "frozenset")
+        if want_flag and not is_flag:
+            out.append((d, dest, f"option {names[0]} fills the bool parameter `{dest}` but is not declared as a flag: it consumes the NEXT"
+                                 f" command-line token as its value (`{names[0]} --other-option` is a usage error, `{names[0]} file` eats the file)"))
+        elif is_flag and not want_flag:
+            out.append((d, dest, f"option {names[0]} is a flag but the parameter `{dest}` is annotated {t}"))
+        if want_many and not many:
+            out.append((d, dest, f"option {names[0]} fills `{dest}: {t}` but is declared without multiple=True / nargs=-1: the parameter is ONE"
+                                 f" string, and iterating it yields its characters"))
+        elif many and not want_many and not want_flag:
+            out.append((d, dest, f"option {names[0]} is declared multiple / nargs=-1 but the parameter `{dest}` is annotated {t}"))
+    return out
+
+
 # ------------------------------------------------------------------------------------------------------------ driver
 def scope_of(repo: Repo, seeds: Iterable[str]) -> list[str]:
     """Seeds plus everything they can call, by name: a plain name or self./cls. attribute that denotes exactly one function of the package."""
@@ -443,6 +534,11 @@ def multi_consumed_params(fn: ast.FunctionDef) -> dict[str, str]:
     return out
 
 
+H7_BAD = "from enum import Enum\nclass S(Enum):\n    A = 'file-header'\n    B = 'file-header'\n"
+H7_OK = "from enum import Enum\nclass S(Enum):\n    A = 'file-header'\n    B = 'dot-license'\n"
+H6_BAD = 'T = [\n    "% !TEX",\n    "%!TEX"\n    # Erlang\n    "#!",\n]\n'
+H6_OK = 'T = [\n    "% !TEX",\n    "%!TEX",\n    "#!",\n]\nM = f(\n    "one "\n    "two"\n)\n'
+
 CONTROL = '''
 def h1(x, acc=[]):
     acc.append(x)
@@ -475,6 +571,10 @@ def h5(infos):
     return [e for e in info.exprs for info in infos]
 def h5_ok(infos):
     return [e for info in infos for e in info.exprs]
+def h8(a: bool, b: Sequence[str]):
+    pass
+def h8_ok(a: bool, b: Sequence[str], c: Optional[str]):
+    pass
 def h4(text):
     import re
     return re.sub("a.*?b", "", text, re.DOTALL)
@@ -494,6 +594,10 @@ def self_control() -> Optional[str]:
     """The lints must fire on the bad twins and stay silent on the good ones (run on every check)."""
     tree = ast.parse(CONTROL)
     fns = {f.name: f for f in tree.body if isinstance(f, ast.FunctionDef)}
+    deco = lambda src: ast.parse(src, mode="eval").body  # noqa: E731
+    fns["h8"].decorator_list = [deco('click.option("--a")'), deco('click.option("--b", "-b", type=str)')]
+    fns["h8_ok"].decorator_list = [deco('click.option("--a", is_flag=True)'), deco('click.option("--b", multiple=True)'), deco('click.option("--c", type=str)'),
+                                   deco('click.option("--aa", "a", is_flag=True, hidden=True)')]
     got = {
         "h1": bool(mutable_defaults(fns["h1"])), "h1_ok": bool(mutable_defaults(fns["h1_ok"])),
         "h2": bool(exhausted_iterators(fns["h2"], set())), "h2_loop": bool(exhausted_iterators(fns["h2_loop"], set())),
@@ -501,8 +605,11 @@ def self_control() -> Optional[str]:
         "h3": bool(late_binding(fns["h3"])), "h3_ok": bool(late_binding(fns["h3_ok"])),
         "h4": bool(flag_in_count_position(fns["h4"])), "h4_ok": bool(flag_in_count_position(fns["h4_ok"])),
         "h5": bool(clause_order(fns["h5"])), "h5_ok": bool(clause_order(fns["h5_ok"])),
+        "h6": bool(implicit_concatenation(H6_BAD, ast.parse(H6_BAD))), "h6_ok": bool(implicit_concatenation(H6_OK, ast.parse(H6_OK))),
+        "h7": bool(enum_aliases(ast.parse(H7_BAD))), "h7_ok": bool(enum_aliases(ast.parse(H7_OK))),
+        "h8": len(click_declarations(fns["h8"])) == 2, "h8_ok": bool(click_declarations(fns["h8_ok"])),
     }
-    want = {"h1": True, "h1_ok": False, "h2": True, "h2_loop": True, "h2_ok": False, "h3": True, "h3_ok": False, "h4": True, "h4_ok": False, "h5": True, "h5_ok": False}
+    want = {"h1": True, "h1_ok": False, "h2": True, "h2_loop": True, "h2_ok": False, "h3": True, "h3_ok": False, "h4": True, "h4_ok": False, "h5": True, "h5_ok": False, "h6": True, "h6_ok": False, "h7": True, "h7_ok": False, "h8": True, "h8_ok": False}
     return None if got == want else f"hygiene positive control: {got}"
 
 
@@ -531,6 +638,10 @@ def run(ck, repo: Repo, rid: str = "H") -> None:
             r.violation(q, f"H4 a regex flag in a count position: {what}",
                         "the flag's integer value is used as the maximum number of substitutions / splits and the flag itself is not applied",
                         repo.loc(node))
+        for node, name, what in click_declarations(fn):
+            r.violation(q, f"H8 a click declaration and the parameter it fills disagree: {what}",
+                        "click converts the command line by the DECLARATION; the function body relies on the annotated type",
+                        repo.loc(node))
         for node, name, what in clause_order(fn):
             r.violation(q, f"H5 comprehension clauses in the wrong order: {what}",
                         "the first clause's iterable is evaluated OUTSIDE the comprehension: the name resolves to whatever an earlier loop left"
@@ -538,6 +649,23 @@ def run(ck, repo: Repo, rid: str = "H") -> None:
         for node, name, what in late_binding(fn):
             r.violation(q, f"H3 late-binding closure: {what}",
                         "all closures created by the loop share the variable and see its LAST value when they are finally called", repo.loc(node))
+    # H6 on the modules these functions live in (tables are module- or class-level)
+    mods = sorted({repo.module_of(repo.functions[q]).name for q in scope})
+    for mname in mods:
+        m = repo.modules[mname]
+        raw_src = m.path.read_text(encoding="utf-8")
+        try:
+            raw_tree = ast.parse(raw_src)
+        except SyntaxError:
+            continue
+        for node, _n, what in enum_aliases(raw_tree):
+            r.violation(mname, f"H7 two enum members share one value: {what}",
+                        "everything that reports or compares the kind by name or value sees one kind where the code distinguishes two",
+                        f"{m.rel}:{getattr(node, 'lineno', 0)}")
+        for node, _n, what in implicit_concatenation(raw_src, raw_tree):
+            r.violation(mname, f"H6 two table entries glued into one string: {what}",
+                        "adjacent string literals are concatenated at compile time: the table has one entry fewer and one entry that"
+                        " matches neither of the intended values", f"{m.rel}:{getattr(node, 'lineno', 0)}")
     # H2 across a call: a single-pass iterator handed to a parameter that the callee iterates more than once
     from .rules import param_names
     multi = {q: multi_consumed_params(repo.functions[q]) for q in repo.functions}
